@@ -15,7 +15,11 @@ Oracle: oracles/shortest_paths.py (exact; walk-DP, simple-path brute force, dens
 Beyond the small scope (checks/C11_round2.py, same judges): size ladder (10..2000 nodes, up to ~50000 arcs, polynomial
 oracle + certificate), magnitude ladder (weights c*2^k, c*10^k, c*B+e, gaps of 2^-k; exhaustive n=3 at B=1e10), history
 mode (one adjacency dict / edge list / callables edited in place between calls; fresh-process comparison), grid ladder,
-long runs.  Every call of a function under check runs under a CPU-time budget (ITIMER_VIRTUAL): the statement promises a
+long runs.  Round 3 (checks/C11_round3.py, same judges): presentation diversity - the small-scope and mid-size generators again
+under unusual but legal node labels (None, falsy values, pairs whose head is a node, frozensets, "1" next to 1), fresh equal copies of
+labels (1 / 1.0 / True), container kinds for neighbour-callback results and edge lists, kinds of goal predicates, goal values that
+are no node, int weights shown as floats; plus the frame clause 'caller-owned inputs unchanged' and 'the same call repeated gives the
+same answer'.  Every call of a function under check runs under a CPU-time budget (ITIMER_VIRTUAL): the statement promises a
 report for every query, so "does not return" is the obligation ensures:returns-a-result.
 """
 from __future__ import annotations
@@ -134,6 +138,10 @@ def make_labels(scheme, n):
         return [n - 1 - i for i in range(n)]
     if scheme == "mixed":
         return MIXED[:n]
+    if scheme.startswith("r3:"):  # round 3 label schemes (None, falsy values, pairs, frozensets, ...), "r3:<scheme>:<rotation>"
+        from checks import C11_round3
+        _, sch, rot = scheme.split(":")
+        return C11_round3.labels3(sch, n, int(rot))
     raise ValueError(scheme)
 
 
@@ -956,6 +964,9 @@ def work(case):
                 out["viol"].append((obl, c, det))
             if any(p >= 0 and par[p] >= 0 for p in par):
                 out["keys"].append(key64(("r", par, case["labels"])))
+    elif kind.startswith("pres"):  # presentation diversity (round 3)
+        from checks import C11_round3
+        return C11_round3.work3(case)
     else:  # size ladder / history / grid ladder / long runs
         from checks import C11_round2
         return C11_round2.work2(case)
@@ -1160,7 +1171,7 @@ def build_cases(ctx: Ctx):
     # -- I: reconstruct_path on every parent forest
     for n in range(1, 5 if q else 6):
         fs = list(forests(n))
-        for sch in ("int", "mixed", "tuple"):
+        for sch in ("int", "mixed", "tuple", "r3:falsy:0", "r3:falsy:%d" % (n // 2), "r3:none:%d" % (n - 1), "r3:pairs:1", "r3:fsets:0"):
             for ch in chunks(fs, 200):
                 cases.append({"kind": "recon", "parents": ch, "labels": sch})
     ctx.scope("reconstruct_path/_reconstruct_indexed: every acyclic parent map", n="1..%d" % (4 if q else 5), exhaustive=True)
@@ -1172,7 +1183,8 @@ def build_cases(ctx: Ctx):
     order = {"big": 0, "gridbig": 0, "implicit": 0, "hist": 1}
     heavy.sort(key=lambda c: (order.get(c["kind"], 2), -C11_round2.cost(c)))
     k = sum(1 for c in heavy if order.get(c["kind"], 2) == 0)
-    rest = cases + heavy[k:]
+    from checks import C11_round3
+    rest = cases + heavy[k:] + C11_round3.build_cases3(ctx, random.Random(ctx.seed + 3))
     rng.shuffle(rest)
     out = []  # pool.map hands out chunks of 4 consecutive items: at most one heavy item per chunk, the biggest first
     for i, h in enumerate(heavy[:k]):
@@ -1212,7 +1224,8 @@ def run(ctx: Ctx):
                 "Round-2 families: one size-ladder / grid-ladder / long-run instance = one generator spec (family, n, density, seed), counted once "
                 "as non-trivial (all have >= 10 nodes and multi-arc shortest paths by construction); magnitude-ladder graphs are counted by the same "
                 "rule as the small scope; one history stream = one spec (seed, steps), every call in it is one evaluation judged against the oracle "
-                "for the graph as it is at that call.")
+                "for the graph as it is at that call. Round-3 (presentation) families: one evaluation = one solver call on a presented instance "
+                "(every probe is called twice); distinct = different (graph, presentation); non-trivial by the rule of the structural family.")
     ctx.assumptions += [
         "astar is only called with heuristics that pass an exact admissibility+consistency check; weight=1",
         "astar_grid: start on a free cell; costs >= 1 and a heuristic admissible for the neighbourhood (auto, or octile/euclidean/chebyshev, "
@@ -1225,6 +1238,13 @@ def run(ctx: Ctx):
         "with max_cost=M a target with delta>M may be reported INFEASIBLE (unreachable within the limit); any *reported* distance must be the true shortest one",
         "MAX_ITER is accepted only if max_iter <= number of reachable nodes",
         "backend='python' forced for bellman_ford, floyd_warshall, dijkstra_edges, bfs_edges, dfs_edges (Rust equivalence is C12)",
+        "presentation families: node labels are arbitrary hashable values and a node is what ==/hash say it is ('goal given as value': 1, 1.0 and True "
+        "name the same node; a returned path may show any of the equal presentations); neighbors(x) may return any iterable (one-shot ones included), "
+        "`edges` any list / tuple of triples; containers owned by the caller (adjacency lists / tuples / deques / dicts, edge containers, heuristic "
+        "table, goal set) must be left as they were (<fn>/frame:caller-owned-inputs-unchanged); a call repeated on the same presentation returns the "
+        "same status, objective and solution (<fn>/ensures:same-call-same-answer). Not covered by the statement and left out: goal VALUE None for "
+        "bfs/dfs (API: None = no goal; such a node is asked for through a predicate), callable labels as goal value, unhashable labels, arcs of weight "
+        "+inf, neighbours outside the node set, one-shot iterables as `edges`, predicates returning non-bools",
     ]
     ctx.trusted += ["oracles/shortest_paths.py (walk DP cross-checked with simple-path brute force on the exhaustive scopes and with the "
                     "potential/tight-arc certificate everywhere; Q2 exact arithmetic in Z[sqrt2] for grids; size ladder: array Dijkstra / Johnson / exact "
@@ -1247,6 +1267,9 @@ def replay(rec) -> int:
     elif case["kind"] in ("big", "history", "gridbig", "gridhist", "implicit"):
         from checks import C11_round2
         v = [(o or rec.get("obligation"), d) for o, d in C11_round2.replay2(case)]
+    elif case["kind"].startswith("pres"):
+        from checks import C11_round3
+        v = C11_round3.replay3(case)
     else:
         try:
             v = recon_check(case)
